@@ -59,7 +59,7 @@ RunResult run_w5(const Plan& pl) {
         sim::Rng r(pl.seed * 2654435761ull + 99);
         int n = pl.geti("ncells", 1); double size = pl.get("size", 5e-6), rho = pl.get("rho", 0.3), lmin = rho * size; bool tri_on = pl.geti("triangulate", 1) != 0; int mode = pl.geti("mode", 0);
         std::vector<InCell> in; std::vector<double> vol; std::vector<TriMesh> ref;
-        for (int k = 0; k < n; k++) { double v; InCell c = gen_poly(pl.geti("c" + std::to_string(k) + "_poly", 0), pl.geti("c" + std::to_string(k) + "_res", 1), r, v, pl.geti("windings", 0)); M33 R = random_rotation(r); V3 t(3.0 * size * k + pl.get("off", 0), pl.get("off", 0) * 0.3, 0); for (auto& p : c.m.V) p = (R * p) * size + t; in.push_back(c); vol.push_back(v * size * size * size); ref.push_back(triangulated(c)); }
+        for (int k = 0; k < n; k++) { double v; InCell c = gen_poly(pl.geti("c" + std::to_string(k) + "_poly", 0), pl.geti("c" + std::to_string(k) + "_res", 1), r, v, pl.geti("windings", 0)); M33 R = random_rotation(r); if (pl.geti("axis_aligned", 0)) R = M33::scale(1, 1, 1); V3 t(3.0 * size * k + pl.get("off", 0), pl.get("off", 0) * 0.3, 0); for (auto& p : c.m.V) p = (R * p) * size + t; in.push_back(c); vol.push_back(v * size * size * size); ref.push_back(triangulated(c)); }
         int bad = pl.geti("bad_input", 0);
         if (bad) { InCell c = bad_input(bad, r); for (auto& p : c.m.V) p = p * size; in.assign(1, c); n = 1; res.probes.hit("bad_input_offered"); }
         std::string dir = g_scratch + "/w5"; mkdir(dir.c_str(), 0700); std::string vp = dir + "/in.vtk"; spit(vp, write_vtk(in, "%.12g"));
@@ -132,6 +132,7 @@ Plan gen_w5(uint64_t seed, const std::string& tier, const std::string& focus) {
     int n = r.coin(0.7) ? 1 : r.range(2, 3); pl.p["ncells"] = n; for (int k = 0; k < n; k++) { pl.p["c" + std::to_string(k) + "_poly"] = (int)r.below(6); pl.p["c" + std::to_string(k) + "_res"] = r.coin(0.7) ? 1 : 2; }
     if (pl.geti("triangulate") && r.coin(0.06)) { pl.p["rho"] = r.uni(0.075, 0.09); pl.p["ncells"] = 1; }   // a fine reconstruction: sampling grids of more than 10^4 voxels (shape extent 2 size, voxel l_min)
     if (r.coin(0.2)) pl.p["off"] = pl.p["size"] * std::pow(10.0, r.range(0, 2));
+    if (r.coin(0.2)) pl.p["axis_aligned"] = 1;     // faces of cubes and prisms parallel to the coordinate planes (the bounding box of the sampling grids touches whole faces)
     { double u = r.uni(); pl.p["windings"] = u < 0.7 ? 0 : (u < 0.85 ? 1 : 2); }
     if (pl.geti("triangulate") && pl.geti("mode") == 0 && r.coin(0.3)) { pl.p["inject_failures"] = r.coin(0.3) ? 10 : r.range(1, 9); static const int ty[] = {sim::EX_INIT_TRI, sim::EX_BPA, sim::EX_MESH_INTEGRITY}; pl.p["inject_type"] = ty[r.below(3)]; if (pl.geti("inject_failures") == 10) pl.p["ncells"] = 1; }
     if (pl.p.count("inject_failures")) pl.p["inject_point"] = (int)r.below(3);
